@@ -941,6 +941,16 @@ def mon_c02_ground(sc, obs):
 
 
 # ---------------------------------------------------------------- C16
+def reads_moved(ta, tb, world):
+    """total movement between two table states read as maps-with-default"""
+    tot = F(0)
+    for i, (a, b) in enumerate(zip(ta, tb)):
+        for g in set(a) | set(b):
+            x, y = a.get(g, world[i]), b.get(g, world[i])
+            tot += abs(x[0] - y[0]) + abs(x[1] - y[1])
+    return tot
+
+
 def reads_equal(ta, tb, world):
     """tables equal as maps-with-default"""
     for i, (a, b) in enumerate(zip(ta, tb)):
@@ -1028,32 +1038,41 @@ CHECKS.update({"C16": check_C16})
 # ---------------------------------------------------------------- C06 (first-order part)
 @monitor("fol_c06")
 def mon_fol_c06(sc, obs):
-    """after infer() converged: no node-level call of any formula changes anything; a second infer() = (1 step, 0)"""
+    """whenever infer() has converged (and no data arrived since): no node-level call of any formula changes anything and a
+    further infer() = (1 step, 0)"""
     if whole_error(obs):
         return ("infer() returns", f"raised error class {obs[1]}", None)
     tr = Trace(sc, obs)
     sts = list(tr.steps())
     if not sts or sts[0]["error"] is not None:
         return ("infer() returns", "raised", None)
-    if sts[0]["ret"] >= 40:
-        return None
     kb = tr.kb
-    if any(crossed(sx.q(kb[i][4][0]), l, u) for i in range(tr.n) for (l, u) in sts[0]["after"][i].values()):
-        return None   # contradictory data: arresting (see C07/C16)
-    world = sts[0]["world"]
-    for st in sts[1:]:
+    converged = None       # number of steps the last infer() took, None = not at a claimed fixpoint
+    for st in sts:
         if st["error"] is not None:
             return (f"op #{st['n']} {st['op']} completes", "raised", None)
-        if st["op"][0] in (1, 2):
+        world = st["world"]
+        t = st["op"][0]
+        if t in (7, 8, 10, 11):
+            converged = None
+            continue
+        if t == 5:
+            if converged is not None:
+                d = reads_equal(st["before"], st["after"], world)
+                if st["ret"] != 1 or st["amt"] > F(1, 10 ** 7) or reads_moved(st["before"], st["after"], world) > F(1, 10 ** 7):
+                    return (f"op #{st['n']}: a further infer() takes 1 step, reports zero, changes nothing", f"steps {st['ret']} amount {st['amt']} changed {d}", None)
+            if st["ret"] >= 40:
+                return None
+            if any(crossed(sx.q(kb[i][4][0]), l, u) for i in range(tr.n) for (l, u) in st["after"][i].values()):
+                return None   # contradictory data: arresting (see C07/C16)
+            converged = st["ret"]
+            continue
+        if t in (1, 2) and converged is not None:
             d = reads_equal(st["before"], st["after"], world)
-            if st["amt"] <= F(1, 10 ** 7):
+            if st["amt"] <= F(1, 10 ** 7) and reads_moved(st["before"], st["after"], world) <= F(1, 10 ** 7):
                 continue    # weighted KBs converge only asymptotically; infer() stops at <= 1e-7 (D9, outside "exactly representable")
             if d or st["amt"] != 0:
-                return (f"after infer() converged in {sts[0]['ret']} steps, node call {st['op']} changes nothing", f"amount {st['amt']}, changed {d}", None)
-        if st["op"][0] == 5:
-            d = reads_equal(st["before"], st["after"], world)
-            if st["ret"] != 1 or st["amt"] > F(1, 10 ** 7):
-                return ("second infer() takes 1 step, reports zero, changes nothing", f"steps {st['ret']} amount {st['amt']} changed {d}", None)
+                return (f"after infer() converged in {converged} steps, node call #{st['n']} {st['op']} changes nothing", f"amount {st['amt']}, changed {d}", None)
     return None
 
 
@@ -1063,6 +1082,16 @@ def c06_fol_part(ctx):
     for _ in range(250 if ctx.quick else 3000):
         kb, worlds, roots, data, hidden = gen_consistent(rng, 3, maxar=2 if rng.random() < 0.7 else 3, weighted=rng.random() < 0.3)
         ops = [[5, -1, 40]]
+        if rng.random() < 0.5:
+            # a later observation (consistent with the hidden reading), then reasoning again: the new fixpoint is the one
+            # the sweep below probes
+            for _k in range(rng.choice([1, 2])):
+                i = rng.randrange(len(kb))
+                g = rng.choice(all_gnds(kb[i][3], 3))
+                x = hidden[(i, g)]
+                if x in G8:
+                    ops.append([8, i, [[list(g), rng.choice([[x, x], [x, x], [rng.choice([v for v in G8 if v <= x]), rng.choice([v for v in G8 if v >= x])]])]]])
+            ops.append([5, -1, 40])
         for i, o in enumerate(kb):
             if o[0] != 0:
                 ops += [[1, i], [2, i, -1]]
